@@ -103,4 +103,99 @@ theorem bnm1NextSize_bounds (n : Nat) (hn : 1 ≤ n) :
   · rw [if_neg h]
     obtain ⟨a, b⟩ := adjust_bounds ((n + 1) / 2) (by omega)
     omega
+
+/-! ### monotonicity -/
+
+/-- the two roundings of mpir_fft_adjust_limbs for the depth `D` -/
+def adjCore (L D : Nat) : Nat :=
+  2 ^ (D * 2) * ((2 ^ (D + 1) * ((L + 2 ^ (D + 1) - 1) / 2 ^ (D + 1)) * 64 + 2 ^ (D * 2) - 1) / 2 ^ (D * 2)) / 64
+
+/-- the depth mpir_fft_adjust_limbs uses for operands with `2^(j−1) < limbs ≤ 2^j` (pinned MULMOD_TAB) -/
+def depthOf (j : Nat) : Nat := (j + 6) / 2 - tab19.getD (min (j + 6) (19 + 11) - 12) 0
+
+theorem adjust_eq (L : Nat) (hL : 128 < L) :
+    ∃ j, 8 ≤ j ∧ 2 ^ (j - 1) < L ∧ L ≤ 2 ^ j ∧ fftAdjustLimbs 128 19 tab19 L = adjCore L (depthOf j) := by
+  obtain ⟨c1, c2, c3⟩ := clog_bounds L (by omega)
+  unfold fftAdjustLimbs
+  rw [if_neg (by omega)]
+  simp only []
+  generalize hj : (clogE L) = j at *
+  have hj8 : 8 ≤ j := by
+    by_contra h
+    have : 2 ^ j ≤ 2 ^ 7 := Nat.pow_le_pow_right (by norm_num) (by omega)
+    omega
+  have p5 : 2 ^ (j + 6 - 1) = 2 ^ (j - 1) * 64 := by
+    rw [show j + 6 - 1 = (j - 1) + 6 by omega, pow_add]; norm_num
+  have p6 : 2 ^ (j + 6) = 2 ^ j * 64 := by rw [pow_add]; norm_num
+  have hpos : 0 < 2 ^ (j - 1) := Nat.two_pow_pos _
+  have hjj : 2 ^ j = 2 * 2 ^ (j - 1) := by rw [← pow_succ']; congr 1; omega
+  have e1 : (clogE (L * 64)) = j + 6 := clog_unique _ _ (by omega) (by omega) (by rw [p5]; omega) (by rw [p6]; omega)
+  have e2 : (clogE (2 ^ j * 64)) = j + 6 := clog_unique _ _ (by omega) (by omega) (by rw [p5]; omega) (by rw [p6])
+  rw [e1, e2, Nat.max_self, if_neg (by omega)]
+  exact ⟨j, hj8, c1, c2, rfl⟩
+
+theorem ceil_mono (x y a : Nat) (h : x ≤ y) : a * ((x + a - 1) / a) ≤ a * ((y + a - 1) / a) :=
+  Nat.mul_le_mul_left _ (Nat.div_le_div_right (by omega))
+
+theorem ceil_le_of_dvd (x M a : Nat) (ha : 0 < a) (hx : x ≤ M) (hd : a ∣ M) : a * ((x + a - 1) / a) ≤ M := by
+  obtain ⟨q, rfl⟩ := hd
+  apply Nat.mul_le_mul_left
+  have : (x + a - 1) / a ≤ (a * q + a - 1) / a := Nat.div_le_div_right (by omega)
+  have e : (a * q + a - 1) / a = q := by
+    have : a * q + a - 1 = (a - 1) + a * q := by omega
+    rw [this, Nat.add_mul_div_left _ _ ha, Nat.div_eq_of_lt (by omega)]; simp
+  omega
+
+theorem adjCore_mono (L1 L2 D : Nat) (h : L1 ≤ L2) : adjCore L1 D ≤ adjCore L2 D := by
+  unfold adjCore
+  apply Nat.div_le_div_right
+  apply ceil_mono
+  exact Nat.mul_le_mul_right _ (ceil_mono _ _ _ h)
+
+theorem adjCore_le_pow (L D j : Nat) (hL : L ≤ 2 ^ j) (h1 : D + 1 ≤ j) (h2 : D * 2 ≤ j + 6) : adjCore L D ≤ 2 ^ j := by
+  unfold adjCore
+  have a1 := ceil_le_of_dvd L (2 ^ j) (2 ^ (D + 1)) (Nat.two_pow_pos _) hL (pow_dvd_pow 2 h1)
+  have e : 2 ^ (j + 6) = 2 ^ j * 64 := by rw [pow_add]; norm_num
+  have a2 := ceil_le_of_dvd (2 ^ (D + 1) * ((L + 2 ^ (D + 1) - 1) / 2 ^ (D + 1)) * 64) (2 ^ (j + 6)) (2 ^ (D * 2))
+    (Nat.two_pow_pos _) (by rw [e]; exact Nat.mul_le_mul_right _ a1) (pow_dvd_pow 2 h2)
+  rw [e] at a2
+  exact Nat.div_le_of_le_mul (by rw [Nat.mul_comm (2 ^ j)] at a2; exact a2)
+
+theorem depthOf_le (j : Nat) : depthOf j ≤ (j + 6) / 2 := Nat.sub_le _ _
+
+theorem adjust_mono (L1 L2 : Nat) (h1 : 128 < L1) (h : L1 ≤ L2) :
+    fftAdjustLimbs 128 19 tab19 L1 ≤ fftAdjustLimbs 128 19 tab19 L2 := by
+  obtain ⟨j1, a1, a2, a3, a4⟩ := adjust_eq L1 h1
+  obtain ⟨j2, b1, b2, b3, b4⟩ := adjust_eq L2 (by omega)
+  rw [a4, b4]
+  rcases Nat.lt_or_ge j1 j2 with hlt | hge
+  · -- a power of two separates them
+    have hd := depthOf_le j1
+    have c1 := adjCore_le_pow L1 (depthOf j1) j1 a3 (by omega) (by omega)
+    have c2 : 2 ^ j1 ≤ 2 ^ (j2 - 1) := Nat.pow_le_pow_right (by norm_num) (by omega)
+    have c3 := (adjust_bounds L2 (by omega)).1
+    rw [b4] at c3
+    omega
+  · have : j1 = j2 := by
+      by_contra hne
+      have hlt : j2 < j1 := by omega
+      have : 2 ^ j2 ≤ 2 ^ (j1 - 1) := Nat.pow_le_pow_right (by norm_num) (by omega)
+      omega
+    subst this
+    exact adjCore_mono L1 L2 _ h
+
+/-- mpn_mulmod_bnm1_next_size is monotone (pinned constants) -/
+theorem bnm1NextSize_mono (n1 n2 : Nat) (h : n1 ≤ n2) :
+    bnm1NextSize 128 19 tab19 n1 ≤ bnm1NextSize 128 19 tab19 n2 := by
+  rcases Nat.eq_zero_or_pos n2 with h0 | hpos
+  · have : n1 = 0 := by omega
+    subst this h0; exact le_refl _
+  · have hb := (bnm1NextSize_bounds n2 hpos).1
+    unfold bnm1NextSize at hb ⊢
+    by_cases c1 : n1 ≤ 2 * 128
+    · rw [if_pos c1]; omega
+    · have c2 : ¬ n2 ≤ 2 * 128 := by omega
+      rw [if_neg c1, if_neg c2]
+      have := adjust_mono ((n1 + 1) / 2) ((n2 + 1) / 2) (by omega) (by omega)
+      omega
 end Mpir.Mm1
